@@ -282,19 +282,23 @@ fn judge(kind: &str, idx: u64, src: &str, base_opts: &Opts, sig: Option<String>)
                     // listing comments sit between instructions and may make the peephole pass miss
                     // a rewrite: that is allowed; declarations and behaviour must still be equal
                     let decl = |o: &Outcome| o.ok().map(|x| format!("{:?}", x.vars)).unwrap_or_default();
+                    let mut co_why = String::new();
                     let same_behaviour = match (oa.ok(), ob.ok()) {
                         (Some(x), Some(y)) if lvl > 0 && decl(&oa) == decl(&ob) => match crate::common::coexec_equal(x, y, 6, idx) {
                             Ok(n) => {
                                 res.count("listing x optimiser: differing text co-executed equal", n);
                                 true
                             }
-                            Err(_) => false,
+                            Err(e) => {
+                                co_why = e;
+                                false
+                            }
                         },
                         _ => false,
                     };
                     if !same_behaviour {
                         let d = a.lines().zip(b.lines()).find(|(x, y)| x != y).map(|(x, y)| format!("without: {}\nwith: {}", trunc(x, 200), trunc(y, 200))).unwrap_or_default();
-                        viol(&mut res, format!("option {} at -O{} changed declarations, instructions (-O0) or behaviour (-O1)\n{}", name, lvl, d), src);
+                        viol(&mut res, format!("option {} at -O{} changed declarations, instructions (-O0) or behaviour (-O1)\n{}\n{}", name, lvl, d, co_why), src);
                         return res;
                     }
                 }
